@@ -60,6 +60,8 @@ type hsCfg struct {
 	timeout bool
 	proxy   bool
 	ctxDL   bool // the deadline comes from the caller's context (HandshakeTimeout is zero), client only
+	// ctxAlso: HandshakeTimeout (1h) and a context deadline this far away are both configured (0: no)
+	ctxAlso time.Duration
 	// proxy credentials (decoded form), for the Proxy-Authorization oracle
 	proxyUser, proxyPass string
 }
@@ -97,6 +99,11 @@ func runHandshake(cfg hsCfg, failAt int, kind string, proxyReply string) (t *TCo
 	if cfg.ctxDL {
 		var cancel context.CancelFunc
 		ctx, cancel = context.WithTimeout(ctx, time.Hour)
+		defer cancel()
+	}
+	if cfg.ctxAlso != 0 {
+		var cancel context.CancelFunc
+		ctx, cancel = context.WithTimeout(ctx, cfg.ctxAlso)
 		defer cancel()
 	}
 	if cfg.proxy {
@@ -166,6 +173,32 @@ func runHsFaultScenario(seed int64, idx int) *scenario {
 		// every operation after the dial runs under a deadline: the first op must arm it
 		if len(t0.ops) == 0 || t0.ops[0] != "SD:D" {
 			sc.violate("HandshakeTimeout set but the first transport operation is %v, not SetDeadline(deadline)", t0.ops)
+		}
+	}
+	if cfg.timeout && !cfg.server && !cfg.ctxDL {
+		// HandshakeTimeout together with a context deadline: the handshake is bounded by the earlier
+		// of the two (oracle only)
+		for _, also := range []time.Duration{5 * time.Hour, 10 * time.Minute} {
+			cfg2 := cfg
+			cfg2.ctxAlso = also
+			t2, c2, err2, p2 := runHandshake(cfg2, -1, "", "HTTP/1.1 200 Connection established\r\n\r\n")
+			if p2 != "" || err2 != nil || c2 == nil {
+				sc.violate("handshake with HandshakeTimeout=1h and a context deadline in %v failed: %v %s", also, err2, p2)
+				continue
+			}
+			want := time.Hour
+			if also < want {
+				want = also
+			}
+			if len(t2.armedFor) == 0 {
+				sc.violate("HandshakeTimeout=1h and context deadline in %v: no deadline armed on the connection", also)
+			}
+			for _, d := range t2.armedFor {
+				if d > want+time.Minute || d < want-time.Minute {
+					sc.violate("HandshakeTimeout=1h and context deadline in %v: the connection's deadline was armed %v ahead, expected the earlier of the two (%v)", also, d.Round(time.Second), want)
+				}
+			}
+			sc.tag("hs:both-deadlines")
 		}
 	}
 	// every op fails in turn
